@@ -78,6 +78,9 @@ Section StyInd.
   Hypothesis H16 : forall c, Q (SData c).
   Hypothesis H17 : forall c, Q (SNamed c).
   Hypothesis H18 : forall c, Q (STyped c).
+  Hypothesis H19 : forall t, Q t -> Q (SSeq t).
+  Hypothesis H20 : forall kt, Q kt -> forall vt, Q vt -> Q (SMap kt vt).
+  Hypothesis H21 : forall b t, Q t -> Q (SBox b t).
   Fixpoint sty_ind' (t: sty) : Q t :=
     match t with
     | SAny => H1 | SNoneT => H2 | SIntT => H3 | SFloatT => H4 | SBoolT => H5 | SStrT => H6
@@ -102,6 +105,9 @@ Section StyInd.
     | SData c => H16 c
     | SNamed c => H17 c
     | STyped c => H18 c
+    | SSeq t' => H19 t' (sty_ind' t')
+    | SMap kt vt => H20 kt (sty_ind' kt) vt (sty_ind' vt)
+    | SBox b t' => H21 b t' (sty_ind' t')
     end.
 End StyInd.
 
@@ -452,7 +458,7 @@ Section Conf.
       | SBytes m => match v with VBytes m' _ => Bool.eqb m m' | _ => false end
       | SLeaf k => match v with VLeaf k' _ => String.eqb k k' | _ => false end
       | SEnum e => match v with VEnum e' _ => String.eqb e e' | _ => false end
-      | SList t' => match v with VList l => forallb (fun x => conf_g x t') l | _ => false end
+      | SList t' | SSeq t' => match v with VList l => forallb (fun x => conf_g x t') l | _ => false end
       | SSet fr t' => match v with VSet fr' l => Bool.eqb fr fr' && forallb (fun x => conf_g x t') l | _ => false end
       | STupleVar t' => match v with VTuple l => forallb (fun x => conf_g x t') l | _ => false end
       | STupleFix ts =>
@@ -479,7 +485,7 @@ Section Conf.
                | _ => false end) &&
               pos_all (fun t' cx => cx t') post (skipn (L - ns) cs)
           | _ => false end
-      | SDict kt vt =>
+      | SDict kt vt | SMap kt vt =>
           match v with
           | VDict kvs => nodup_keys kvs && forallb (fun p => match p with (k, x) => conf_g k kt && conf_g x vt end) kvs
           | _ => false end
@@ -522,6 +528,12 @@ Section Conf.
                                      | None => f.(sf_opt) end) k.(sc_fields)) &&
                   (if o then td_sorted (td_order k.(sc_fields)) kvs else true)
               end
+          | _ => false end
+      | SBox b t' =>
+          (* an instance of exactly that collection class around a conforming list / dict *)
+          match v with
+          | VObj c [(n, inner)] =>
+              String.eqb c (box_name b) && String.eqb n "" && chain_canon b inner && conf_g inner t'
           | _ => false end
       end.
 End Conf.
@@ -658,6 +670,10 @@ Section C02.
             | _ => Exn XTypeError
             end
         end
+    | EBox ch e' =>
+        match v with
+        | VObj _ [(_, inner)] => if chain_empty ch inner then Ok (VList [VDict []]) else pk E P inner e'
+        | _ => Exn XAttributeError end
     end.
   Proof. destruct v, e; reflexivity. Qed.
 
@@ -667,7 +683,7 @@ Section C02.
     | SBytes _ => match v with VBytes _ b => Ok (VStr (P.(p_b64enc) b)) | _ => Exn XTypeError end
     | SLeaf _ => match v with VLeaf k w => Ok (P.(p_render) k w) | _ => Exn XAttributeError end
     | SEnum _ => match v with VEnum en mn => lift (P.(p_enum_value) en mn) | _ => Exn XAttributeError end
-    | SList t' | SSet _ t' | STupleVar t' =>
+    | SList t' | SSet _ t' | STupleVar t' | SSeq t' =>
         match v with
         | VList l | VTuple l | VSet _ l => r <- mapM (fun x => ref_enc E P x t') l ;; Ok (VList r)
         | _ => Exn XTypeError end
@@ -695,7 +711,7 @@ Section C02.
                       | _ => fun _ => Exn XTypeError end) ;;
               Ok (VList r)
         | _ => Exn XTypeError end
-    | SDict kt vt =>
+    | SDict kt vt | SMap kt vt =>
         match v with
         | VDict kvs =>
             r <- mapM (fun p => match p with (k, x) =>
@@ -750,6 +766,10 @@ Section C02.
             | _ => Exn XTypeError
             end
         end
+    | SBox b t' =>
+        match v with
+        | VObj _ [(_, inner)] => if chain_empty (is_chain b) inner then Ok (VList [VDict []]) else ref_enc E P inner t'
+        | _ => Exn XAttributeError end
     end.
   Proof. destruct v, t; reflexivity. Qed.
 
@@ -764,7 +784,7 @@ Section C02.
     | SBytes m => match v with VBytes m' _ => Bool.eqb m m' | _ => false end
     | SLeaf k => match v with VLeaf k' _ => String.eqb k k' | _ => false end
     | SEnum e => match v with VEnum e' _ => String.eqb e e' | _ => false end
-    | SList t' => match v with VList l => forallb (fun x => conf_g o E x t') l | _ => false end
+    | SList t' | SSeq t' => match v with VList l => forallb (fun x => conf_g o E x t') l | _ => false end
     | SSet fr t' => match v with VSet fr' l => Bool.eqb fr fr' && forallb (fun x => conf_g o E x t') l | _ => false end
     | STupleVar t' => match v with VTuple l => forallb (fun x => conf_g o E x t') l | _ => false end
     | STupleFix ts =>
@@ -791,7 +811,7 @@ Section C02.
              | _ => false end) &&
             pos_all (fun t' cx => cx t') post (skipn (L - ns) cs)
         | _ => false end
-    | SDict kt vt =>
+    | SDict kt vt | SMap kt vt =>
         match v with
         | VDict kvs => nodup_keys kvs && forallb (fun p => match p with (k, x) => conf_g o E k kt && conf_g o E x vt end) kvs
         | _ => false end
@@ -834,6 +854,11 @@ Section C02.
                                    | None => f.(sf_opt) end) k.(sc_fields)) &&
                 (if o then td_sorted (td_order k.(sc_fields)) kvs else true)
             end
+        | _ => false end
+    | SBox b t' =>
+        match v with
+        | VObj c [(n, inner)] =>
+            String.eqb c (box_name b) && String.eqb n "" && chain_canon b inner && conf_g o E inner t'
         | _ => false end
     end.
   Proof. destruct v, t; reflexivity. Qed.
@@ -927,7 +952,7 @@ Section C02.
     induction v as [ | b | z | f | s | m b | l IHl | l IHl | fr l IHl | kvs IHk | c fs IHf | e m | k w | c l IHl | tg ]
       using pv_rect'; unfold pk_ok.
     (* every case: inner induction on the type is only needed for SOpt, so destruct and recurse there *)
-    all: intros t; induction t as [ | | | | | | m' | k' | e' | t' IHt | fr' t' IHt | t' IHt | ts | pre mid IHmid post | kt IHkt vt IHvt | t' IHt | c' | c' | c' ];
+    all: intros t; induction t as [ | | | | | | m' | k' | e' | t' IHt | fr' t' IHt | t' IHt | ts | pre mid IHmid post | kt IHkt vt IHvt | t' IHt | c' | c' | c' | t' IHt | kt IHkt vt IHvt | bx t' IHt ];
       intros cbn HC HG; try (solve [apply (pk_tupleu _ _ _ _ _ IHl HC)]);
       rewrite conf_unfold in HC; rewrite ref_enc_unfold;
       try discriminate HC;
@@ -938,6 +963,8 @@ Section C02.
                 apply IHt; [ cbn [is_none orb] in HC; exact HC | intros Hc; discriminate ]
               | cbn [is_none orb] in HC; cbn [is_none];
                 apply IHt; [ exact HC | intros _ _; reflexivity ] ]).
+    (* comprehensions without the copy shortcut: variadic tuples, Sequence *)
+    all: try solve [ cbn [cp]; rewrite pk_unfold; rewrite (pk_list_elems l t' IHl HC); reflexivity ].
     - (* VNone, SOpt *)
       destruct cbn; [cbn [cp]; rewrite pk_unfold; reflexivity|].
       specialize (HG eq_refl eq_refl). discriminate.
@@ -945,8 +972,6 @@ Section C02.
       cbn [cp]. unfold seq_expr. destruct (is_id (cp true t')) eqn:Hid; rewrite pk_unfold.
       + rewrite seq_copy_ok by exact Hid. reflexivity.
       + rewrite (pk_list_elems l t' IHl HC). reflexivity.
-    - (* VTuple, STupleVar *)
-      cbn [cp]. rewrite pk_unfold. rewrite (pk_list_elems l t' IHl HC). reflexivity.
     - (* VTuple, STupleFix *)
       cbn [cp]. rewrite pk_unfold. f_equal.
       clear HG. revert ts HC. induction l as [|x l IHl']; intros ts HC.
@@ -988,6 +1013,14 @@ Section C02.
       destruct (look_In _ _ _ El) as [key [Hin _]].
       pose proof (Forall_In _ _ IHk (key, x) Hin) as [_ Qx]. cbn [snd] in Qx.
       rewrite (Qx (sf_ty f) true HCf) by (intros Hc; discriminate Hc). reflexivity.
+    - (* VDict, SMap: always the comprehension *)
+      apply andb_prop in HC. destruct HC as [Hnd HC].
+      cbn [cp]. rewrite pk_unfold. f_equal. apply mapM_ext_in. intros [k x] Hp.
+      pose proof (Forall_In _ _ IHk (k, x) Hp) as [Qk Qx]. cbn [fst snd] in Qk, Qx.
+      rewrite forallb_forall in HC. specialize (HC (k, x) Hp). cbn in HC.
+      apply andb_prop in HC. destruct HC as [Ck Cx].
+      rewrite (Qk kt true Ck) by (intros Hc; discriminate).
+      rewrite (Qx vt true Cx) by (intros Hc; discriminate). reflexivity.
     - (* VObj, SData *)
       apply andb_prop in HC. destruct HC as [_ HC].
       cbn [cp]. rewrite pk_unfold. destruct (sfind E _ c') as [k|]; [|reflexivity].
@@ -1004,6 +1037,12 @@ Section C02.
           rewrite (Qx (sf_ty f) false Hx).
           -- rewrite (IHfs Qfs fds Hr). reflexivity.
           -- intros _ Hnl. unfold sfield_nullable in Hnull. rewrite Hnl in Hnull. cbn [orb andb] in Hnull. exact Hnull.
+    - (* VObj, SBox: the comprehension runs on the content *)
+      destruct fs as [|[n inner] [|]]; try discriminate HC.
+      apply andb_prop in HC. destruct HC as [_ HC].
+      cbn [cp]. rewrite pk_unfold. destruct (chain_empty (is_chain bx) inner); [reflexivity|].
+      inversion IHf as [|? ? Qi _]; subst. cbn [snd] in Qi.
+      apply (Qi t' true HC). intros Hc; discriminate.
     - (* VNT, SNamed *)
       cbn [cp]. rewrite pk_unfold.
       apply andb_prop in HC. destruct HC as [_ HC].
@@ -1058,7 +1097,7 @@ Section ConfMono.
   Proof.
     induction v as [ | b | z | f | s | m b | l IHl | l IHl | fr l IHl | kvs IHk | c fs IHf | e m | k w | c l IHl | tg ]
       using pv_rect'; unfold mono_ok.
-    all: intros t; induction t as [ | | | | | | m' | k' | e' | t' IHt | fr' t' IHt | t' IHt | ts | pre mid IHmid post | kt IHkt vt IHvt | t' IHt | c' | c' | c' ];
+    all: intros t; induction t as [ | | | | | | m' | k' | e' | t' IHt | fr' t' IHt | t' IHt | ts | pre mid IHmid post | kt IHkt vt IHvt | t' IHt | c' | c' | c' | t' IHt | kt IHkt vt IHvt | bx t' IHt ];
       intros HC; try (solve [apply (conf_tupleu_mono _ _ _ _ IHl HC)]);
       rewrite conf_unfold in HC; rewrite conf_unfold; try exact HC; try discriminate HC.
     (* Optional *)
@@ -1066,14 +1105,21 @@ Section ConfMono.
     (* homogeneous containers *)
     all: try solve [ try (apply andb_prop in HC; destruct HC as [Hfr HC]; rewrite Hfr; cbn [andb]);
                      refine (forallb_impl_in _ _ _ _ HC); intros x Hx Hc; apply (Forall_In _ _ IHl x Hx); exact Hc ].
+    (* dict / Mapping *)
+    all: try solve [
+      apply andb_prop in HC; destruct HC as [Hnd HC]; rewrite Hnd; cbn [andb];
+      refine (forallb_impl_in _ _ _ _ HC); intros [k x] Hp Hc; apply andb_prop in Hc; destruct Hc as [Ck Cx];
+      destruct (Forall_In _ _ IHk (k, x) Hp) as [Qk Qx]; cbn [fst snd] in Qk, Qx; rewrite (Qk kt Ck), (Qx vt Cx); reflexivity ].
+    (* boxed collections *)
+    all: try solve [
+      destruct fs as [|[n inner] [|]]; try discriminate HC;
+      apply andb_prop in HC; destruct HC as [Hc HC];
+      rewrite Hc; cbn [andb];
+      inversion IHf as [|? ? Qi _]; subst; cbn [snd] in Qi; apply Qi; exact HC ].
     - (* fixed tuple *)
       revert ts HC. induction l as [|x l IHl']; intros ts HC; destruct ts as [|t1 ts]; try discriminate HC; [reflexivity|].
       apply andb_prop in HC. destruct HC as [Cx Cl]. inversion IHl as [|? ? Qx Ql]; subst.
       rewrite (Qx t1 Cx). apply (IHl' Ql ts Cl).
-    - (* dict *)
-      apply andb_prop in HC. destruct HC as [Hnd HC]. rewrite Hnd. cbn [andb].
-      refine (forallb_impl_in _ _ _ _ HC). intros [k x] Hp Hc. apply andb_prop in Hc. destruct Hc as [Ck Cx].
-      destruct (Forall_In _ _ IHk (k, x) Hp) as [Qk Qx]. cbn [fst snd] in Qk, Qx. rewrite (Qk kt Ck), (Qx vt Cx). reflexivity.
     - (* TypedDict: drop the order, keep the rest *)
       destruct (sfind E _ c') as [k0|]; [|discriminate HC].
       apply andb_prop in HC. destruct HC as [HC _]. apply andb_prop in HC. destruct HC as [HC HCf]. rewrite HC. cbn [andb].
@@ -1184,7 +1230,7 @@ Section C03.
   Lemma const_dec_cu_n n : forall t, const_dec_n E n (cu true t) = const_ty_n E n t.
   Proof.
     induction n as [|n IHn].
-    all: induction t as [ | | | | | | m' | k' | e' | t' IHt | fr' t' IHt | t' IHt | ts IHts | pre IHpre mid IHmid IHmide post IHpost | kt IHkt vt IHvt | t' IHt | c' | c' | c' ]
+    all: induction t as [ | | | | | | m' | k' | e' | t' IHt | fr' t' IHt | t' IHt | ts IHts | pre IHpre mid IHmid IHmide post IHpost | kt IHkt vt IHvt | t' IHt | c' | c' | c' | t' IHt | kt IHkt vt IHvt | bx t' IHt ]
       using sty_ind'; try (solve [apply const_tupleu_step; assumption]);
       cbn [cu]; rewrite const_dec_n_unfold, const_ty_n_unfold; try reflexivity.
     all: try (match goal with |- context [omapM (const_dec_n E ?m) (map (cu true) ?l)] =>
@@ -1253,6 +1299,7 @@ Section C03.
         match sfind E KTyped c with
         | None => Exn XAttributeError
         | Some k => td_nondict (konst_u E) k.(sc_fields) end
+    | UBox b u' => r <- uk_str E P n u' s ;; Ok (box_val b r)
     end.
   Proof. destruct n, u; reflexivity. Qed.
 
@@ -1267,7 +1314,7 @@ Section C03.
     | SBytes m => b <- lift (P.(p_b64dec) (VStr s)) ;; Ok (VBytes m b)
     | SLeaf k => w <- lift (P.(p_parse) k (VStr s)) ;; Ok (VLeaf k w)
     | SEnum e => mn <- lift (P.(p_enum_of) e (VStr s)) ;; Ok (VEnum e mn)
-    | SList t' => r <- mapM (ref_dec_str_g E P sm n t') (utf8_chars s) ;; Ok (VList r)
+    | SList t' | SSeq t' => r <- mapM (ref_dec_str_g E P sm n t') (utf8_chars s) ;; Ok (VList r)
     | SSet fr t' => r <- mapM (ref_dec_str_g E P sm n t') (utf8_chars s) ;;
         if forallb hashable r then Ok (VSet fr (set_of_list r)) else Exn XTypeError
     | STupleVar t' => r <- mapM (ref_dec_str_g E P sm n t') (utf8_chars s) ;; Ok (VTuple r)
@@ -1281,7 +1328,7 @@ Section C03.
         Ok (VTuple r)
     | STupleU pre mid post =>
         r <- tu_ref E sm (ref_dec_str_g E P sm n) (none_tail_t E) (utf8_chars s) pre mid post ;; Ok (VTuple r)
-    | SDict _ _ => Exn XAttributeError
+    | SDict _ _ | SMap _ _ => Exn XAttributeError
     | SOpt t' => ref_dec_str_g E P sm n t' s
     | SData c => match sfind E KData c with
                  | Some _ => Exn XValueError
@@ -1302,6 +1349,7 @@ Section C03.
         match sfind E KTyped c with
         | None => Exn XAttributeError
         | Some k => td_nondict (konst_t E) k.(sc_fields) end
+    | SBox b t' => r <- ref_dec_str_g E P sm n t' s ;; Ok (box_val b r)
     end.
   Proof. destruct n, t; reflexivity. Qed.
 
@@ -1311,7 +1359,7 @@ Section C03.
   Lemma uk_str_ref n : forall t cbn s, uk_str E P n (cu cbn t) s = ref_dec_str_g E P false n t s.
   Proof.
     induction n as [|n IHn].
-    all: induction t as [ | | | | | | m' | k' | e' | t' IHt | fr' t' IHt | t' IHt | ts IHts | pre IHpre mid IHmid IHmide post IHpost | kt IHkt vt IHvt | t' IHt | c' | c' | c' ]
+    all: induction t as [ | | | | | | m' | k' | e' | t' IHt | fr' t' IHt | t' IHt | ts IHts | pre IHpre mid IHmid IHmide post IHpost | kt IHkt vt IHvt | t' IHt | c' | c' | c' | t' IHt | kt IHkt vt IHvt | bx t' IHt ]
       using sty_ind'; intros cbn s;
       try (rewrite (ref_dec_str_unfold _ _ (SOpt t')); destruct cbn; cbn [cu]; [rewrite uk_str_unfold|]; apply IHt);
       cbn [cu]; rewrite uk_str_unfold, ref_dec_str_unfold; try reflexivity.
@@ -1331,6 +1379,7 @@ Section C03.
           intros x _; inversion IHmide as [|? ? Hq _]; apply Hq
         | apply (mid_fix_rel (cu true) (fun x: string => x) (fun x: string => x) _ _ _ _ _ _ none_tail_cu (Some _));
           [ intros d _; apply const_dec_cu | intros d x Hd _; apply (Forall_In _ _ IHmide d Hd) ] ] ] ].
+    all: try solve [ rewrite IHt; reflexivity ].
     - destruct (sfind E _ c') as [k|]; [|reflexivity]. f_equal.
       apply nt_items_ext; [ intros f x _; apply IHn | exact konst_u_t | reflexivity ].
   Qed.
@@ -1345,7 +1394,7 @@ Section C03.
     (* number of NamedTuple classes a str can descend through, starting at a type *)
     Fixpoint need (t: sty) : nat :=
       match t with
-      | SList t' | SSet _ t' | STupleVar t' | SOpt t' => need t'
+      | SList t' | SSet _ t' | STupleVar t' | SOpt t' | SSeq t' | SBox _ t' => need t'
       | STupleFix ts => (fix go (l: list sty) : nat := match l with [] => O | t' :: r => Nat.max (need t') (go r) end) ts
       | STupleU pre mid post =>
           Nat.max ((fix go (l: list sty) : nat := match l with [] => O | t' :: r => Nat.max (need t') (go r) end) pre)
@@ -1509,7 +1558,7 @@ Section C03.
     Theorem ref_dec_str_no_recursion sm n : forall t s, (need t <= n)%nat -> nrec (ref_dec_str_g E P sm n t s).
     Proof.
       induction n as [|n IHn].
-      all: induction t as [ | | | | | | m' | k' | e' | t' IHt | fr' t' IHt | t' IHt | ts IHts | pre IHpre mid IHmid IHmide post IHpost | kt IHkt vt IHvt | t' IHt | c' | c' | c' ]
+      all: induction t as [ | | | | | | m' | k' | e' | t' IHt | fr' t' IHt | t' IHt | ts IHts | pre IHpre mid IHmid IHmide post IHpost | kt IHkt vt IHvt | t' IHt | c' | c' | c' | t' IHt | kt IHkt vt IHvt | bx t' IHt ]
         using sty_ind'; intros s Hn; rewrite ref_dec_str_unfold;
         try (intros H; discriminate H); try apply nrec_coerce;
         try (apply nrec_bind; [apply nrec_lift | intros a H; discriminate H]);
@@ -1532,6 +1581,7 @@ Section C03.
                        | apply in_app_or in Hd; destruct Hd as [Hd|Hd];
                          [ apply (Forall_In _ _ IHmide d Hd); apply (Forall_In _ _ (need_mid_elems _ _ Hm) d Hd)
                          | apply (Forall_In _ _ IHpost d Hd); apply (Forall_In _ _ Hq d Hd) ] ] ].
+      all: try solve [ apply nrec_bind; [apply IHt; exact Hn | intros a H; discriminate H] ].
       - (* a NamedTuple class with no fuel left: excluded by the bound *)
         cbn [need] in Hn. destruct (sfind E _ c') as [k|]; [lia | intros H; discriminate H].
       - cbn [need] in Hn. destruct (sfind E _ c') as [k|] eqn:Ef; [|intros H; discriminate H].
@@ -1598,7 +1648,7 @@ Section C03.
 
     Lemma acyclic_bound : forall t, (need (rank_n (List.length E)) t <= List.length E)%nat.
     Proof.
-      induction t as [ | | | | | | m' | k' | e' | t' IHt | fr' t' IHt | t' IHt | ts IHts | pre IHpre mid IHmid IHmide post IHpost | kt IHkt vt IHvt | t' IHt | c' | c' | c' ]
+      induction t as [ | | | | | | m' | k' | e' | t' IHt | fr' t' IHt | t' IHt | ts IHts | pre IHpre mid IHmid IHmide post IHpost | kt IHkt vt IHvt | t' IHt | c' | c' | c' | t' IHt | kt IHkt vt IHvt | bx t' IHt ]
         using sty_ind'; cbn [need]; try lia; try exact IHt.
       - apply need_list_le. exact IHts.
       - pose proof (need_list_le _ _ _ IHpre). pose proof (need_list_le _ _ _ IHpost). lia.
@@ -1734,6 +1784,7 @@ Section C03.
               | _ => td_nondict (konst_u E) k.(sc_fields)
               end
           end
+      | UBox b u' => r <- uk E P d u' ;; Ok (box_val b r)
       end.
   Proof. destruct d, u; reflexivity. Qed.
 
@@ -1748,7 +1799,7 @@ Section C03.
       | SBytes m => b <- lift (P.(p_b64dec) d) ;; Ok (VBytes m b)
       | SLeaf k => w <- lift (P.(p_parse) k d) ;; Ok (VLeaf k w)
       | SEnum e => mn <- lift (P.(p_enum_of) e d) ;; Ok (VEnum e mn)
-      | SList t' =>
+      | SList t' | SSeq t' =>
           match d with
           | VList l | VTuple l | VSet _ l => r <- mapM (fun x => ref_dec_g E P sm x t') l ;; Ok (VList r)
           | VDict kvs => r <- mapM (fun p => match p with (k, _) => ref_dec_g E P sm k t' end) kvs ;; Ok (VList r)
@@ -1796,7 +1847,7 @@ Section C03.
                       | _ => fun _ => Exn XTypeError end) ;;
               Ok (VTuple r)
           end
-      | SDict kt vt =>
+      | SDict kt vt | SMap kt vt =>
           match d with
           | VDict kvs =>
               r <- mapM (fun p => match p with (k, x) =>
@@ -1863,6 +1914,7 @@ Section C03.
               | _ => td_nondict (konst_t E) k.(sc_fields)
               end
           end
+      | SBox b t' => r <- ref_dec_g E P sm d t' ;; Ok (box_val b r)
       end.
   Proof. destruct d, t; reflexivity. Qed.
 
@@ -1931,7 +1983,7 @@ Section C03.
   Proof.
     induction d as [ | b | z | f | s | m b | l IHl | l IHl | fr l IHl | kvs IHk | c fs IHf | e m | k w | c l IHl | tg ]
       using pv_rect'; unfold uk_ok.
-    all: intros t; induction t as [ | | | | | | m' | k' | e' | t' IHt | fr' t' IHt | t' IHt | ts | pre mid IHmid post | kt IHkt vt IHvt | t' IHt | c' | c' | c' ];
+    all: intros t; induction t as [ | | | | | | m' | k' | e' | t' IHt | fr' t' IHt | t' IHt | ts | pre mid IHmid post | kt IHkt vt IHvt | t' IHt | c' | c' | c' | t' IHt | kt IHkt vt IHvt | bx t' IHt ];
       intros cbn HG;
       try (solve [ apply uk_tupleu; cbn; intros x Hx; first [ destruct Hx | apply (Forall_In _ _ IHl x Hx) ] ]);
       cbn [cu]; try (rewrite uk_unfold, ref_dec_unfold; reflexivity).
@@ -1946,6 +1998,7 @@ Section C03.
                      first [ exact (uk_str_ref _ (SList t') true s)
                            | exact (uk_str_ref _ (SSet fr' t') true s)
                            | exact (uk_str_ref _ (STupleVar t') true s)
+                           | exact (uk_str_ref _ (SSeq t') true s)
                            | exact (uk_str_ref _ (STupleFix ts) true s) ] ].
     (* NamedTuple: sequences item-wise, a str through [uk_str], anything else only constants *)
     all: try solve [ rewrite uk_unfold, ref_dec_unfold; destruct (sfind E _ c') as [kc|]; [|reflexivity];
@@ -1963,6 +2016,20 @@ Section C03.
     all: try solve [ rewrite uk_unfold, ref_dec_unfold;
                      rewrite (mapM_ext_in _ (fun x => ref_dec_g E P false x t'));
                      [ reflexivity | intros x Hx; apply (Forall_In _ _ IHl x Hx); intros Hc; discriminate Hc ] ].
+    (* VDict iterated by a list decoder: its keys *)
+    all: try solve [ rewrite uk_unfold, ref_dec_unfold;
+      rewrite (mapM_ext_in _ (fun p : pv * pv => match p with (k, _) => ref_dec_g E P false k t' end)); [reflexivity|];
+      intros [k x] Hp; apply (proj1 (Forall_In _ _ IHk (k, x) Hp)); intros Hc; discriminate Hc ].
+    (* VDict, SDict / SMap *)
+    all: try solve [ rewrite uk_unfold, ref_dec_unfold;
+      rewrite (mapM_ext_in _ (fun p : pv * pv => match p with (k, x) =>
+                 k' <- ref_dec_g E P false k kt ;; x' <- ref_dec_g E P false x vt ;;
+                 if hashable k' then Ok (k', x') else Exn XTypeError end)); [reflexivity|];
+      intros [k x] Hp; destruct (Forall_In _ _ IHk (k, x) Hp) as [Qk Qx]; cbn [fst snd] in Qk, Qx;
+      rewrite (Qk kt true) by (intros Hc; discriminate Hc);
+      rewrite (Qx vt true) by (intros Hc; discriminate Hc); reflexivity ].
+    (* boxed collections: the inner unpacker, then the class *)
+    all: try solve [ rewrite uk_unfold, ref_dec_unfold; rewrite (IHt true) by (intros Hc; discriminate Hc); reflexivity ].
     - (* VStr, SData *)
       rewrite uk_unfold, ref_dec_unfold. rewrite ref_dec_str_unfold.
       destruct (sfind E _ c') as [k|]; reflexivity.
@@ -1982,24 +2049,6 @@ Section C03.
         inversion IHl as [|? ? Qx Ql]; subst.
         rewrite (Qx t1 true) by (intros Hc; discriminate Hc).
         rewrite (IHl' Ql ts). reflexivity.
-    - (* VDict iterated by a list decoder: its keys *)
-      rewrite uk_unfold, ref_dec_unfold.
-      rewrite (mapM_ext_in _ (fun p : pv * pv => match p with (k, _) => ref_dec_g E P false k t' end)); [reflexivity|].
-      intros [k x] Hp. apply (proj1 (Forall_In _ _ IHk (k, x) Hp)). intros Hc; discriminate Hc.
-    - rewrite uk_unfold, ref_dec_unfold.
-      rewrite (mapM_ext_in _ (fun p : pv * pv => match p with (k, _) => ref_dec_g E P false k t' end)); [reflexivity|].
-      intros [k x] Hp. apply (proj1 (Forall_In _ _ IHk (k, x) Hp)). intros Hc; discriminate Hc.
-    - rewrite uk_unfold, ref_dec_unfold.
-      rewrite (mapM_ext_in _ (fun p : pv * pv => match p with (k, _) => ref_dec_g E P false k t' end)); [reflexivity|].
-      intros [k x] Hp. apply (proj1 (Forall_In _ _ IHk (k, x) Hp)). intros Hc; discriminate Hc.
-    - (* VDict, SDict *)
-      rewrite uk_unfold, ref_dec_unfold.
-      rewrite (mapM_ext_in _ (fun p : pv * pv => match p with (k, x) =>
-                 k' <- ref_dec_g E P false k kt ;; x' <- ref_dec_g E P false x vt ;;
-                 if hashable k' then Ok (k', x') else Exn XTypeError end)); [reflexivity|].
-      intros [k x] Hp. destruct (Forall_In _ _ IHk (k, x) Hp) as [Qk Qx]. cbn [fst snd] in Qk, Qx.
-      rewrite (Qk kt true) by (intros Hc; discriminate Hc).
-      rewrite (Qx vt true) by (intros Hc; discriminate Hc). reflexivity.
     - (* VDict, SData: the field loop *)
       rewrite uk_unfold, ref_dec_unfold.
       destruct (sfind E _ c') as [k|]; [|reflexivity].
